@@ -59,11 +59,17 @@ static MapShape build_map(uint8_t* buf, bool withTail = true) {
   s.offSavedGame = 4; vf_st32(buf + 8, LG); vf_st32(buf + 12, H); vf_st32(buf + 16, NTS);
   p = 20; s.offTiles = p; p += NTILES * 4; p += 16;
   for (unsigned i = 0; i < NTS; i++) { if (i == 0) s.offTs0Len = p; vf_st32(buf + p, TSLEN[i]); p += 4 + TSLEN[i]; if (TSLEN[i]) p += 4; }
-  memcpy(buf + p, "TILE SET\x1a", 10); p += 10;
+#ifndef SYMMARK
+  memcpy(buf + p, "TILE SET\x1a", 10);
+#endif
+  p += 10;            // with SYMMARK the ten marker bytes stay symbolic: the reader itself decides which it accepts
   s.offMapCnt = p; vf_st32(buf + p, NMAP); p += 4 + NMAP * 8;
   s.offTerCnt = p; vf_st32(buf + p, NTER); p += 4 + NTER * 264;
   s.offAfterTerrain = p;
-  vf_st32(buf + p, ver); vf_st32(buf + p + 4, ver); p += 8;
+#ifndef SYMMARK
+  vf_st32(buf + p, ver); vf_st32(buf + p + 4, ver);
+#endif
+  p += 8;             // with SYMMARK the two repeated version tags stay symbolic as well
   if (withTail) {
     s.offGrpCnt = p; vf_st32(buf + p, NGRP); s.offUnknown = p + 4; p += 8;
     for (unsigned g = 0; g < NGRP; g++) { if (g == 0) { s.offG0W = p; s.offG0H = p + 4; } vf_st32(buf + p, GW); vf_st32(buf + p + 4, GH); p += 8 + GW * GH * 4; if (g == 0) s.offG0NameLen = p; vf_st32(buf + p, GNL); p += 4 + GNL; }
